@@ -66,9 +66,46 @@ def _desugar_all_any(text, log, unit_id):
     return text
 
 
+def _eliminate_continue(text, log, unit_id):
+    """R7: `if C { continue; } REST-OF-LOOP-BODY`  =>  `if !(C) { REST-OF-LOOP-BODY }`  (Verus `for` has no `continue`).
+    Only the form where the `if` is a statement directly in a loop body is handled."""
+    n = 0
+    while True:
+        masked = rsparse.mask(text)
+        m = re.search(r'if\s+([^{};]+?)\s*\{\s*continue;\s*\}', masked)
+        if not m:
+            break
+        # enclosing block: scan backwards for the unmatched '{'
+        depth, k = 0, m.start() - 1
+        while k >= 0:
+            if masked[k] == '}':
+                depth += 1
+            elif masked[k] == '{':
+                if depth == 0:
+                    break
+                depth -= 1
+            k -= 1
+        if k < 0:
+            raise ExtractError('%s: R7 cannot find the loop body of a continue' % unit_id)
+        close = rsparse.match_brace(masked, k)
+        cond = text[m.start(1):m.end(1)]
+        rest = text[m.end():close]
+        new = 'if !(%s) {%s}\n' % (cond, rest)
+        log.append(dict(unit=unit_id, rule='R7', where='body', pattern='if C { continue; } rest', replacement='if !(C) { rest }',
+                        matches=[text[m.start():m.end()]]))
+        text = text[:m.start()] + new + text[close:]
+        n += 1
+    if n == 0:
+        raise ExtractError('%s: R7 found no `if C { continue; }`' % unit_id)
+    return text
+
+
 def _apply_rewrites(text, rewrites, log, unit_id, where):
     for rw in rewrites:
         rule, pat, repl = rw[0], rw[1], rw[2]
+        if pat == '@continue':
+            text = _eliminate_continue(text, log, unit_id)
+            continue
         if pat == '@all_any':
             text = _desugar_all_any(text, log, unit_id)
             continue
@@ -193,6 +230,10 @@ def build_unit(unit, log):
     sig = _name_return(sig, unit.get('ret', 'r'))
     contract = unit.get('contract', '').strip('\n')
 
+    if unit.get('mode') == 'assumed':
+        text = '#[verifier::external_body]\n' + sig + '\n' + contract + '\n{ unimplemented!() }'
+        meta['mode'] = 'assumed'
+        return text, meta
     if unit.get('mode') == 'contract_only':
         sig = re.sub(r'\(\s*mut self\b', '(self', sig, count=1)
         # callee proved in another group: only its contract is visible here (modular verification)
